@@ -49,7 +49,7 @@ def dispatcher(name, lst, event, extra_ensures=(), extra_inv=(), extra_mods=(), 
            f"and context._PluginScanContext__replace_token_list is None")
     ev = event.replace("L[j]", f"{L}[j]")
     register(Contract(
-        key=PM + name, properties=["C07", "C12", "C14", "C15", "C09"],
+        key=PM + name, properties=["C07", "C12", "C14", "C15", "C09", "C08", "C10"],
         ghost=dict(TRACE, **(extra_ghost or {})),
         requires=[f"implies(context_map is None and not context.in_fix_mode, context.current_fix_line is None and {sep})"],
         ensures=[f"implies({scan}, {e})" for e in appended(L, ev)]
@@ -81,17 +81,24 @@ dispatcher("next_token", "__enabled_plugins_for_next_token", "('tok', L[j].plugi
 CH_POST = ['implies(len(trace) > old(len(trace)), trace[old(len(trace))][4] is line)', 'len(g_cfl) - old(len(g_cfl)) == len(trace) - old(len(trace))', 'forall(lambda t: trace[t][4] is (g_cfl[t - old(len(trace)) + old(len(g_cfl)) - 1] if g_cfl[t - old(len(trace)) + old(len(g_cfl)) - 1] is not None else trace[t - 1][4]), old(len(trace)) + 1, len(trace))']
 CH_INV = ['len(g_cfl) - old(len(g_cfl)) == len(trace) - old(len(trace))', 'len(trace) >= old(len(trace))', 'implies(len(trace) == old(len(trace)), line is old(line))', 'implies(len(trace) > old(len(trace)), trace[old(len(trace))][4] is old(line))', 'implies(len(trace) > old(len(trace)), line is (g_cfl[len(g_cfl) - 1] if g_cfl[len(g_cfl) - 1] is not None else trace[len(trace) - 1][4]))', 'forall(lambda t: trace[t][4] is (g_cfl[t - old(len(trace)) + old(len(g_cfl)) - 1] if g_cfl[t - old(len(trace)) + old(len(g_cfl)) - 1] is not None else trace[t - 1][4]), old(len(trace)) + 1, len(trace))', 'forall(lambda t: trace[t] == old(trace[t]), 0, old(len(trace)))']
 dispatcher("next_line", "__enabled_plugins_for_next_line", "('line', L[j].plugin_instance, context, line_number, line)",
-           extra_ghost={"g_cfl": "List[Optional[str]]"},
+           extra_ghost={"g_cfl": "List[Optional[str]]", "g_written": "List[Any]"},
            extra_ensures=[
+               # C08 / C10 (D21): in fix mode every line handed to next_line is written to the output of the pass exactly once --
+               # whichever context the LAST rule of the list was given (a rule of a higher fix level gets the reporting context)
+               "implies(old(context.in_fix_mode), len(g_written) == old(len(g_written)) + 1)",
+               "implies(not old(context.in_fix_mode) and context_map is None, len(g_written) == old(len(g_written)))",
                # C09 (all modes, with or without context_map): a rule receives the line as fixed by the rules before it: the first
                # rule gets the file's line, each later one gets the previous rule's fixed line if it set one, else what that rule got
                ] + CH_POST + ["implies(context_map is None and not old(context).in_fix_mode, context.line_number == line_number)"],
-           extra_inv=CH_INV + ["implies(context_map is None and not old(context).in_fix_mode, line is old(line))",
+           extra_inv=CH_INV + ["implies(context_map is None, plugin_context is context)", "len(g_written) == old(len(g_written))",
+                      "context.in_fix_mode == old(context.in_fix_mode)",
+                      "implies(context_map is None and not old(context).in_fix_mode, line is old(line))",
                       "implies(context_map is None and not old(context).in_fix_mode, context.line_number == line_number)"],
-           extra_mods=["context.line_number"])
+           extra_mods=["context.line_number", "g_written.$list"])
 dispatcher("completed_file", "__enabled_plugins_for_completed_file", "('done', L[j].plugin_instance, context, line_number)",
            extra_ensures=["implies(context_map is None and not old(context).in_fix_mode, context.line_number == line_number)"],
-           extra_inv=["implies(context_map is None and not old(context).in_fix_mode, context.line_number == line_number)"],
+           extra_inv=["implies(context_map is None, plugin_context is context)",
+                      "implies(context_map is None and not old(context).in_fix_mode, context.line_number == line_number)"],
            extra_mods=["context.line_number"])
 
 register(Contract(
